@@ -4,7 +4,7 @@ import re
 
 from . import dfa, refparser, rulegen, worker
 from .c09 import calibrate, source_overlay, stub
-from .c11 import near_duplicate, outside_pair, padded_pair, strip_comment
+from .c11 import near_duplicate, outside_pair, padded_pair, slash_pair, strip_comment
 from .common import digest, pmap
 
 TOP = "<all>"
@@ -162,7 +162,7 @@ def run(ctx):
             b = near_duplicate(rng, a) or rng.choice(pool)
             x_ = rng.random()
             if x_ < 0.4:
-                ab = outside_pair(rng, a) if x_ < 0.2 else padded_pair(rng, a)
+                ab = outside_pair(rng, a) if x_ < 0.15 else (padded_pair(rng, a) if x_ < 0.28 else slash_pair(rng, a))
                 if ab:
                     a, b = ab
             lst = [a, b] + [rng.choice(pool) for _ in range(rng.randint(0, 2))]
